@@ -353,6 +353,13 @@ def plan(pid, tr, sd):
                 ms.append("union")
             for k, mis in enumerate(ms):
                 jobs.append((pid, "c11", label, t, gens[0], dict(pls[(i + k) % 2], misuse=mis)))
+        elif pid == "C20":
+            if t[0] not in ("struct", "array"):
+                continue
+            for pl in rot(i, [pls[0], pls[1], pls[4]], 1 if tr == "quick" else 3):
+                jobs.append((pid, "c20", label, t, gens[0], dict(pl)))
+            for g in rot(i, gens_more, 1 if tr == "quick" else 3):
+                jobs.append((pid, "c20", label, t, g, dict(pls[i % 2])))
         elif pid == "C08":
             if not tg.has_ref(t) or t[0] not in ("struct", "array"):
                 continue
@@ -374,7 +381,7 @@ def plan(pid, tr, sd):
         out = []
         for j in jobs:
             cfg = j[5]
-            heavy = tg.has_ref(j[3]) or pid in ("C09", "C10", "C08")
+            heavy = tg.has_ref(j[3]) or pid in ("C09", "C10", "C08", "C20")
             if heavy and cfg.get("N", 0) >= 1 and cfg.get("placement") != "grown":
                 j = j[:5] + (dict(cfg, roomy=1 << 14),)
             out.append(j)
@@ -386,7 +393,7 @@ def plan(pid, tr, sd):
         out = []
         for j in jobs:
             cfg = j[5]
-            heavy = tg.has_ref(j[3]) or pid in ("C09", "C10", "C08", "C06", "C03", "C11")
+            heavy = tg.has_ref(j[3]) or pid in ("C09", "C10", "C08", "C06", "C03", "C11", "C20")
             if heavy and cfg.get("N", 0) >= 1 and cfg.get("placement") != "grown":
                 j = j[:5] + (dict(cfg, roomy=1 << 14),)
             elif tg.has_ref(j[3]) and cfg.get("grow_step") == "sym" and pid != "C08":
@@ -405,7 +412,7 @@ def xo_array_fns():
     return [xo.array.MetaArray.__new__, xa.get_strides, xa.get_offset, xa.bound_check, xa.rewrite_item, xo.struct.MetaStruct.__new__, xo.Struct._set_offsets, xo.string.MetaString._inspect_args]
 
 
-LEVELS = {p: "model_checking" for p in ("C01", "C03", "C05", "C06", "C08", "C09", "C10", "C11")}
+LEVELS = {p: "model_checking" for p in ("C01", "C03", "C05", "C06", "C08", "C09", "C10", "C11", "C20")}
 
 
 def main(pid):
